@@ -8,6 +8,8 @@ import (
 
 	"github.com/verily-src/fhirpath-go/fhirpath"
 	"github.com/verily-src/fhirpath-go/fhirpath/compopts"
+	"github.com/verily-src/fhirpath-go/fhirpath/evalopts"
+	"github.com/verily-src/fhirpath-go/fhirpath/system"
 	"github.com/verily-src/fhirpath-go/fhirpath/internal/funcs"
 	"github.com/verily-src/fhirpath-go/internal/fhir"
 	"github.com/verily-src/fhirpath-go/fhirpath/verifharness/core"
@@ -123,6 +125,39 @@ func c01History(env *core.Env) {
 				c01Expr(env, "history", "repeat:"+tmpl, src, true)
 			}
 			env.Cover("history/repeated-failing-input")
+		}
+	}
+	// a custom function whose argument binding fails for some evaluations and succeeds for others, on one compiled expression
+	n++
+	if env.Mine(n) {
+		tag := func(in system.Collection, s system.String) (system.Collection, error) { return system.Collection{s + "!"}, nil }
+		two := func(in system.Collection, a system.Integer, b system.String) (system.Collection, error) {
+			return system.Collection{b}, nil
+		}
+		named := gen.StdPatient()
+		nameless := gen.StdPatient()
+		nameless.Name = nil
+		co := []fhirpath.CompileOption{compopts.AddFunction("tag", tag), compopts.AddFunction("two", two)}
+		for _, src := range []string{"tag(Patient.name.given.first().toString())", "Patient.tag(name.given.first().toString())", "Patient.name.select(tag(given.first().toString()))", "Patient.tag(name.given.toString())", "two(Patient.name.count(), Patient.name.first().family.toString())",
+			"Patient.name.select(two(given.count(), family.toString()))", "tag(1)", "tag(Patient.name.nosuch)", "Patient.name.select(tag(iif(use.exists(), family.toString(), nosuch)))", "tag(%v)", "two(%v, 'x')", "two(1, %v)"} {
+			ex, cr := fx.Compile(env, src, co...)
+			if ex == nil {
+				if cr.IsPanic() {
+					env.Violatef(fx.PanicSig("C01", cr), "history: Compile(`%s`) => %s", src, cr.Short())
+				}
+				continue
+			}
+			vals := []any{system.String("s"), system.Collection{}, system.Integer(3), system.Collection{system.String("a"), system.String("b")}, system.Boolean(true), system.String("t"), system.Collection(nil), system.Integer(4)}
+			for k := 0; k < 8; k++ {
+				in := []fhir.Resource{named}
+				if k%2 == 0 {
+					in = []fhir.Resource{nameless}
+				}
+				r := fx.Evaluate(env, ex, in, evalopts.EnvVariable("v", vals[k]))
+				env.Case()
+				env.Cover("history/custom-function-binding")
+				c01Judge(env, "history", "custom-function", src, r)
+			}
 		}
 	}
 	for _, src := range []string{"'x'.toInteger()", "'5 zz'.toQuantity()", "@2020-01-31 + 1 'kg'", "1 / 0", "(1 | 2).single()", "%nosuch", "'abc'.substring('a')", "Patient.nosuch", "'2020-13-01'.toDate()", "'25:00'.toTime()", "'1e400'.toDecimal()", "1.5.round(-1)", "%multi.skip('x')", "2147483647 + 1", "@9999-12-31 + 1 day", "'a'.toChars().join(1)"} {
